@@ -189,6 +189,34 @@ func (m *Module) fieldFlows(f *ssa.Function) []flow {
 					continue
 				}
 				if call, ok := x.Val.(*ssa.Call); ok {
+					// o.F = build(r.G): a helper of the same package that returns a fresh object (or a list of fresh
+					// objects) filled from its parameters — its flows, seen from here
+					if h := m.callee(call.Common()); h != nil && h.Pkg == f.Pkg && h != f && len(h.Blocks) > 0 {
+						for _, hf := range m.helperFlows(h) {
+							prm, ok := hf.Src.Root.(*ssa.Parameter)
+							if !ok {
+								continue
+							}
+							k := -1
+							for i, hp := range h.Params {
+								if hp == prm {
+									k = i
+								}
+							}
+							if k < 0 || k >= len(call.Call.Args) {
+								continue
+							}
+							src := m.ap(call.Call.Args[k])
+							for _, stp := range hf.Src.Path {
+								src = src.extend(stp)
+							}
+							for _, w := range hf.Src.Wrap {
+								src = src.wrap(w)
+							}
+							path := append(append([]string{}, p.path...), strings.Split(hf.Path, ".")...)
+							out = append(out, flow{p.root, strings.Join(path, "."), src, hf.Val, x})
+						}
+					}
 					// o.F = copyOf(r.G): a helper that builds a fresh map from its argument, entry by entry
 					if g := m.callee(call.Common()); g != nil && (m.mapCopyFn(g) || isStdClone(g, "maps")) {
 						src := m.ap(call.Call.Args[0])
@@ -321,4 +349,85 @@ func isStdClone(g *ssa.Function, pkg string) bool {
 		o = g.Origin()
 	}
 	return o.Pkg != nil && o.Pkg.Pkg.Path() == pkg && o.Name() == "Clone"
+}
+
+// helperFlows: the flows of h into what it returns — a fresh struct (path relative to the result) or the
+// fresh elements of a list it builds by append (path "[]."…) — restricted to sources rooted at h's parameters.
+func (m *Module) helperFlows(h *ssa.Function) []flow {
+	if m.hflows == nil {
+		m.hflows = map[*ssa.Function][]flow{}
+	}
+	if fl, ok := m.hflows[h]; ok {
+		return fl
+	}
+	m.hflows[h] = nil // recursion guard
+	if h.Signature.Results().Len() != 1 {
+		return nil
+	}
+	roots := map[ssa.Value]string{}
+	for _, r := range m.resultRoots(h, 0) {
+		if _, isAlloc := r.(*ssa.Alloc); isAlloc {
+			roots[r] = ""
+		}
+	}
+	// elements appended to the returned list
+	seen := map[ssa.Value]bool{}
+	var walk func(v ssa.Value, d int)
+	walk = func(v ssa.Value, d int) {
+		if v == nil || seen[v] || d > 8 {
+			return
+		}
+		seen[v] = true
+		switch x := v.(type) {
+		case *ssa.Phi:
+			for _, e := range x.Edges {
+				walk(e, d+1)
+			}
+		case *ssa.Call:
+			if ap, ok := isBuiltinCall(x, "append"); ok && len(ap.Call.Args) == 2 {
+				walk(ap.Call.Args[0], d+1)
+				if sl, ok := ap.Call.Args[1].(*ssa.Slice); ok {
+					if arr, ok := sl.X.(*ssa.Alloc); ok {
+						roots[arr] = "[]" // the literal's backing array is where its elements' fields are placed
+						for _, r := range *arr.Referrers() {
+							if ia, ok := r.(*ssa.IndexAddr); ok {
+								for _, rr := range *ia.Referrers() {
+									if st, ok := rr.(*ssa.Store); ok && st.Addr == ssa.Value(ia) {
+										if el, ok := st.Val.(*ssa.Alloc); ok {
+											roots[el] = "[]"
+										}
+									}
+								}
+							}
+						}
+					}
+				}
+			}
+		}
+	}
+	if _, isSlice := h.Signature.Results().At(0).Type().Underlying().(*types.Slice); isSlice {
+		for _, r := range returnsOf(h) {
+			walk(r.Results[0], 0)
+		}
+	}
+	if len(roots) == 0 {
+		return nil
+	}
+	var out []flow
+	for _, fl := range m.fieldFlows(h) {
+		prefix, ok := roots[fl.Root]
+		if !ok {
+			continue
+		}
+		if _, isP := fl.Src.Root.(*ssa.Parameter); !isP {
+			continue
+		}
+		path := fl.Path
+		if prefix != "" {
+			path = prefix + "." + fl.Path
+		}
+		out = append(out, flow{nil, path, fl.Src, fl.Val, fl.At})
+	}
+	m.hflows[h] = out
+	return out
 }
